@@ -109,8 +109,10 @@ def is_sequence_type_restriction(st1: str, st2: str) -> bool:
     elif not st1.startswith('function('):
         return False
 
-    if st1 == 'function(*)':
-        return st2.startswith('function(')
+    if not st2.startswith('function('):
+        return False  # only a function test can be a restriction of a function test
+    elif st1 == 'function(*)':
+        return True
 
     parts1 = st1[9:].partition(') as ')
     parts2 = st2[9:].partition(') as ')
